@@ -184,6 +184,9 @@ pub enum Op {
     RtJson,
     RtTok { human: bool },
     ResSet(u8),
+    /// create a lock-step twin of the world: 0 JSON round trip, 1 compact tokens, 2 human-readable tokens,
+    /// 3 `clone()`; every later operation is applied to both and the two must stay identical
+    Twin(u8),
 }
 
 impl Op {
@@ -208,6 +211,10 @@ impl Op {
             Op::RtJson => "rt_json",
             Op::RtTok { .. } => "rt_tok",
             Op::ResSet(_) => "res_set",
+            Op::Twin(0) => "twin_json",
+            Op::Twin(1) => "twin_tok_compact",
+            Op::Twin(2) => "twin_tok_hr",
+            Op::Twin(_) => "twin_clone",
         }
     }
 }
@@ -297,6 +304,9 @@ pub struct Exec {
     pub maux: Option<Model>,
     /// per-precondition-class counters, reported in the evidence
     pub class: Option<&'static str>,
+    /// lock-step twin (a deserialized or cloned copy that receives every later operation too)
+    pub twin: Option<Box<Exec>>,
+    pub twin_kind: u8,
 }
 
 #[derive(Debug, PartialEq, Eq)]
@@ -308,7 +318,7 @@ pub enum Step {
 impl Exec {
     pub fn new() -> Exec {
         let (w, res) = new_world();
-        Exec { w, aux: None, m: Model { ents: BTreeMap::new(), issued: Vec::new(), res }, maux: None, class: None }
+        Exec { w, aux: None, m: Model { ents: BTreeMap::new(), issued: Vec::new(), res }, maux: None, class: None, twin: None, twin_kind: 0 }
     }
 
     fn target(&self, t: Tgt) -> Option<Id> {
@@ -337,6 +347,63 @@ impl Exec {
     /// Applies one operation to the real world and to the model.  Oracles that concern the
     /// operation's own return value are evaluated here.
     pub fn apply(&mut self, op: &Op, chk: &mut Checker) -> Step {
+        if let Op::Twin(kind) = *op {
+            if self.twin.is_some() || self.aux.is_some() {
+                return Step::Disabled;
+            }
+            let prop = if kind == 3 { Prop::C10 } else { Prop::C06 };
+            let made = match kind {
+                0 => rt_json(&self.w),
+                1 => rt_tok(&self.w, false),
+                2 => rt_tok(&self.w, true),
+                _ => Ok(self.w.clone()),
+            };
+            match made {
+                Err(e) => chk.fail(prop, &format!("roundtrip-failed op={}", op.kind()), e),
+                Ok(w2) => {
+                    if !(self.w == w2) || !(w2 == self.w) {
+                        chk.fail(prop, &format!("copy-not-equal op={}", op.kind()), format!("original == copy: {}, copy == original: {}", self.w == w2, w2 == self.w));
+                    }
+                    let (mut c1, mut c2) = (Vec::new(), Vec::new());
+                    canon_world(&self.w.verif_dump(), &mut c1, false);
+                    canon_world(&w2.verif_dump(), &mut c2, false);
+                    if c1 != c2 {
+                        chk.fail(prop, &format!("copy-structure-differs op={}", op.kind()), format!("slots / free list / rows differ: {:?} vs {:?}", c1, c2));
+                    }
+                    self.twin = Some(Box::new(Exec { w: w2, aux: None, m: self.m.clone(), maux: None, class: None, twin: None, twin_kind: kind }));
+                    self.twin_kind = kind;
+                }
+            }
+            return Step::Done;
+        }
+        if self.twin.is_some() && *op == Op::Clear {
+            // `clear` releases identifiers in table iteration order, which depends on heap addresses: with
+            // several populated tables the order in which identifiers are reissued afterwards is not a
+            // function of the world's contents, so lock-step identity is undefined (DESIGN.md, C06 notes).
+            let populated = self.w.verif_dump().archetypes.iter().filter(|a| a.length > 0).count();
+            if populated > 1 {
+                return Step::Disabled;
+            }
+        }
+        let v0 = comp::with_ledger(|l| l.next_val).unwrap_or(0);
+        let step = self.apply_inner(op, chk);
+        if let Some(t) = self.twin.as_mut() {
+            let v1 = comp::with_ledger(|l| std::mem::replace(&mut l.next_val, v0)).unwrap_or(0);
+            let mut sub = Checker::default();
+            let step2 = t.apply_inner(op, &mut sub);
+            comp::with_ledger(|l| l.next_val = l.next_val.max(v1));
+            let prop = if self.twin_kind == 3 { Prop::C10 } else { Prop::C06 };
+            if step2 != step {
+                chk.fail(prop, &format!("twin-diverged-enabledness op={}", op.kind()), format!("original {:?}, twin {:?}", step, step2));
+            }
+            for f in sub.fails {
+                chk.fail(prop, &format!("twin-misbehaves op={} ({})", op.kind(), f.key), f.detail);
+            }
+        }
+        step
+    }
+
+    fn apply_inner(&mut self, op: &Op, chk: &mut Checker) -> Step {
         match *op {
             Op::Insert { mask, rev } => {
                 let mut row = [None; NC];
@@ -479,10 +546,13 @@ impl Exec {
                     return Step::Disabled;
                 }
                 let mut writes: Vec<(Id, usize, u32)> = Vec::new();
+                // new values depend on (operation, entity, component) only, never on iteration order
+                let base = comp::fresh_val() << 8;
+                let val_for = |id: entity::Identifier, c: u32| base + ((idp(id).0 as u32 & 0x3f) << 2) + c;
                 match v {
                     0 => {
                         for result!(id, a) in self.w.query(Query::<Views!(entity::Identifier, &mut A)>::new()).iter {
-                            let nv = comp::fresh_val();
+                            let nv = val_for(id, 0);
                             a.set(nv);
                             writes.push((idp(id), 0, nv));
                         }
@@ -491,7 +561,7 @@ impl Exec {
                         for result!(o, b, id) in self.w.query(Query::<Views!(Option<&mut O>, &B, entity::Identifier)>::new()).iter {
                             b.read();
                             if let Some(o) = o {
-                                let nv = comp::fresh_val();
+                                let nv = val_for(id, 2);
                                 o.set(nv);
                                 writes.push((idp(id), 2, nv));
                             }
@@ -501,7 +571,7 @@ impl Exec {
                         for result!(b, id) in
                             self.w.query(Query::<Views!(&mut B, entity::Identifier), filter::Not<filter::Has<A>>>::new()).iter
                         {
-                            let nv = comp::fresh_val();
+                            let nv = val_for(id, 3);
                             b.set(nv);
                             writes.push((idp(id), 3, nv));
                         }
@@ -512,12 +582,12 @@ impl Exec {
                         {
                             z.read();
                             if let Some(a) = a {
-                                let nv = comp::fresh_val();
+                                let nv = val_for(id, 0);
                                 a.set(nv);
                                 writes.push((idp(id), 0, nv));
                             }
                             if let Some(b) = b {
-                                let nv = comp::fresh_val();
+                                let nv = val_for(id, 3);
                                 b.set(nv);
                                 writes.push((idp(id), 3, nv));
                             }
@@ -627,6 +697,7 @@ impl Exec {
                     }
                 }
             }
+            Op::Twin(_) => return Step::Disabled,
         }
         Step::Done
     }
@@ -634,32 +705,31 @@ impl Exec {
     /// All state oracles, evaluated after an operation.
     pub fn check_state(&mut self, chk: &mut Checker, op: &Op) {
         let k = op.kind();
-        let snap = snapshot(&mut self.w);
-        check_world_vs_model(&mut self.w, &snap, &self.m, chk, k, "world");
         let mut owned: BTreeSet<u64> = BTreeSet::new();
         let mut zcount = 0i64;
-        collect_owned(&snap, &self.w, &mut owned, &mut zcount);
-        if let (Some(aux), Some(maux)) = (self.aux.as_mut(), self.maux.as_ref()) {
-            let asnap = snapshot(aux);
-            // the auxiliary world is never the target of an operation: it must not change
+        self.check_side(chk, k, &mut owned, &mut zcount);
+        let twin_prop = if self.twin_kind == 3 { Prop::C10 } else { Prop::C06 };
+        if let Some(t) = self.twin.as_mut() {
             let mut sub = Checker::default();
-            check_world_vs_model(aux, &asnap, maux, &mut sub, k, "aux");
+            t.check_side(&mut sub, k, &mut owned, &mut zcount);
             for f in sub.fails {
-                // a change in the *other* world is an independence failure
-                chk.fail(Prop::C10, &format!("other-world-changed op={} ({})", k, f.key), f.detail.clone());
-                chk.fail(f.prop, &f.key, f.detail);
+                chk.fail(twin_prop, &format!("twin-misbehaves op={} ({})", k, f.key), f.detail);
             }
-            collect_owned(&asnap, aux, &mut owned, &mut zcount);
-            audit(&aux.verif_dump(), maux, chk, k, "aux");
-            // address independence between the two worlds
-            let (d1, d2) = (self.w.verif_dump(), aux.verif_dump());
-            let a1: BTreeSet<usize> = dump_addrs(&d1);
-            let a2: BTreeSet<usize> = dump_addrs(&d2);
+            if t.m != self.m || t.maux != self.maux {
+                let d = if t.m.issued != self.m.issued {
+                    format!("identifiers issued differ: original {:?}, twin {:?}", self.m.issued, t.m.issued)
+                } else {
+                    first_diff(&model_vals(&t.m), &model_vals(&self.m))
+                };
+                chk.fail(twin_prop, &format!("twin-diverged op={}", k), d);
+            }
+            // the twin must share no memory with the original
+            let a1 = dump_addrs(&self.w.verif_dump());
+            let a2 = dump_addrs(&t.w.verif_dump());
             if let Some(x) = a1.intersection(&a2).next() {
-                chk.fail(Prop::C10, &format!("shared-address op={}", k), format!("both worlds reference address {:#x}", x));
+                chk.fail(twin_prop, &format!("shared-address op={}", k), format!("original and twin both reference {:#x}", x));
             }
         }
-        audit(&self.w.verif_dump(), &self.m, chk, k, "world");
         // C04: ledger live set == serials owned by the worlds
         let live: BTreeSet<u64> = comp::with_ledger(|l| l.live_serials().into_iter().collect()).unwrap_or_default();
         if live != owned {
@@ -676,6 +746,34 @@ impl Exec {
             chk.fail(Prop::C04, &format!("zst-count op={}", k), format!("{} Z values alive, worlds hold {}", comp::zst_live(1), zcount));
         }
         self.check_ledger_and_arena(chk, k);
+    }
+
+    /// Oracles for one (world, aux) side against its models; accumulates the serials it owns.
+    pub fn check_side(&mut self, chk: &mut Checker, k: &str, owned: &mut BTreeSet<u64>, zcount: &mut i64) {
+        let snap = snapshot(&mut self.w);
+        check_world_vs_model(&mut self.w, &snap, &self.m, chk, k, "world");
+        collect_owned(&snap, &self.w, owned, zcount);
+        if let (Some(aux), Some(maux)) = (self.aux.as_mut(), self.maux.as_ref()) {
+            let asnap = snapshot(aux);
+            // the auxiliary world is never the target of an operation: it must not change
+            let mut sub = Checker::default();
+            check_world_vs_model(aux, &asnap, maux, &mut sub, k, "aux");
+            for f in sub.fails {
+                // a change in the *other* world is an independence failure
+                chk.fail(Prop::C10, &format!("other-world-changed op={} ({})", k, f.key), f.detail.clone());
+                chk.fail(f.prop, &f.key, f.detail);
+            }
+            collect_owned(&asnap, aux, owned, zcount);
+            audit(&aux.verif_dump(), maux, chk, k, "aux");
+            // address independence between the two worlds
+            let (d1, d2) = (self.w.verif_dump(), aux.verif_dump());
+            let a1: BTreeSet<usize> = dump_addrs(&d1);
+            let a2: BTreeSet<usize> = dump_addrs(&d2);
+            if let Some(x) = a1.intersection(&a2).next() {
+                chk.fail(Prop::C10, &format!("shared-address op={}", k), format!("both worlds reference address {:#x}", x));
+            }
+        }
+        audit(&self.w.verif_dump(), &self.m, chk, k, "world");
     }
 
     pub fn check_ledger_and_arena(&self, chk: &mut Checker, k: &str) {
@@ -958,7 +1056,9 @@ pub fn audit(d: &brood::verif::Dump, m: &Model, chk: &mut Checker, k: &str, whic
 // ---------------------------------------------------------------------------------------------
 // Canonical state
 
-pub fn canon_world(d: &brood::verif::Dump, out: &mut Vec<u8>) {
+/// `strict` includes capacities, `TypeId` lookup entries and lookup multiplicity; the loose form keeps
+/// rows, slots, generations and the free list (everything identifier allocation depends on).
+pub fn canon_world(d: &brood::verif::Dump, out: &mut Vec<u8>, strict: bool) {
     let mut arch: Vec<&brood::verif::ArchetypeDump> = d.archetypes.iter().collect();
     arch.sort_by(|a, b| a.id_bytes.cmp(&b.id_bytes));
     let addr_rank: BTreeMap<usize, usize> = arch.iter().enumerate().map(|(i, a)| (a.id_addr, i)).collect();
@@ -967,15 +1067,19 @@ pub fn canon_world(d: &brood::verif::Dump, out: &mut Vec<u8>) {
     for a in &arch {
         out.extend_from_slice(&a.id_bytes);
         out.push(a.length as u8);
-        out.push(a.entity_col.1.min(255) as u8);
-        for c in &a.columns {
-            out.push(c.1.min(255) as u8);
+        if strict {
+            out.push(a.entity_col.1.min(255) as u8);
+            for c in &a.columns {
+                out.push(c.1.min(255) as u8);
+            }
         }
         for id in &a.entity_ids {
             out.push(id.0 as u8);
             out.extend_from_slice(&(id.1 as u16).to_le_bytes());
         }
-        out.push(typed.contains(&a.id_addr) as u8);
+        if strict {
+            out.push(typed.contains(&a.id_addr) as u8);
+        }
     }
     out.push(d.slots.len() as u8);
     for s in &d.slots {
@@ -992,19 +1096,28 @@ pub fn canon_world(d: &brood::verif::Dump, out: &mut Vec<u8>) {
     for f in &d.free {
         out.push(*f as u8);
     }
-    out.push(d.foreign_lookup.len() as u8);
+    if strict {
+        out.push(d.foreign_lookup.len() as u8);
+    }
     out.push(d.len as u8);
 }
 
 impl Exec {
     pub fn canon(&self) -> Vec<u8> {
         let mut out = Vec::with_capacity(128);
-        canon_world(&self.w.verif_dump(), &mut out);
+        canon_world(&self.w.verif_dump(), &mut out, true);
         match &self.aux {
             None => out.push(0),
             Some(a) => {
                 out.push(1);
-                canon_world(&a.verif_dump(), &mut out);
+                canon_world(&a.verif_dump(), &mut out, true);
+            }
+        }
+        match &self.twin {
+            None => out.push(0),
+            Some(t) => {
+                out.push(1 + self.twin_kind);
+                out.extend_from_slice(&t.canon());
             }
         }
         out
